@@ -67,7 +67,20 @@ def _parse_via(channel, raw):
         if spell:
             env['CONTENT_TYPE'] = spell
         env['wsgi.input'] = io.BytesIO(body)
+        if channel == 'forms-chunked':
+            # the same form sent with chunked framing; a Content-Length that a careless proxy left beside it does not count
+            # (RFC 7230 3.3.3: Transfer-Encoding overrides Content-Length)
+            cut = max(1, len(body) // 3)
+            wire = b''.join(b'%x\r\n%s\r\n' % (len(p_), p_) for p_ in (body[:cut], body[cut:]) if p_) + b'0\r\n\r\n'
+            env['wsgi.input'] = io.BytesIO(wire)
+            env['HTTP_TRANSFER_ENCODING'] = 'chunked'
+            if len(raw) % 2:
+                env['CONTENT_LENGTH'] = str(max(1, len(body) // 2))
+            else:
+                del env['CONTENT_LENGTH']
         app.request.__init__(env)
+        if channel == 'forms-chunked':
+            return res_of(app.request.forms), ''
         if channel == 'query-after-rewrite':
             raise AssertionError('handled above')
         if channel == 'forms-after-body':
@@ -124,8 +137,8 @@ def run(chk):
         keys = [''.join(chr(rng.choice(CPS)) for _ in range(rng.randint(1, 4))) for _ in range(max(1, n // 2 + 1))]
         pairs = [(rng.choice(keys), ''.join(chr(rng.choice(CPS)) for _ in range(rng.choice([0, 1, 2, 5])))) for _ in range(n)]
         raw = urlencode(pairs)
-        ch = rng.choice(['qsl', 'query', 'forms', 'params', 'forms-after-body', 'query-after-rewrite'])
-        if ch in ('forms', 'params', 'forms-after-body') and not raw:
+        ch = rng.choice(['qsl', 'query', 'forms', 'params', 'forms-after-body', 'query-after-rewrite', 'forms-chunked'])
+        if ch in ('forms', 'params', 'forms-after-body', 'forms-chunked') and not raw:
             ch = 'query'
         parse_via.peek = rng.choice([-1, 0, 1, 7])
         parse_via.before = rng.choice(['old=1&a=2', 'x', '', 'a=b&a=c'])
